@@ -59,7 +59,7 @@ def famsig(fam, st):
     f0 = fam.split("/")[0]
     if f0 in ("interpreter-test", "bytecode-test"):
         return f0 + ":" + hashlib.sha1(" ; ".join(st).encode("utf8")).hexdigest()[:8]
-    if f0.startswith("zoo-"):
+    if f0.startswith("zoo-") or f0.startswith("scale-"):
         return f0
     if f0.startswith("const-"):
         k = fam.split("/")[1]
@@ -159,6 +159,16 @@ def blackbox_programs(tier, seed):
               ("stdlib", ["math/sin(0)"]), ("stdlib", ["stats/sum/row([1 2; 3 4])"]), ("matrix", ["[1 2; 3 4] ** [1; 1]"]), ("transpose", ["[1 2; 3 4]'"]),
               ("slice", ["x := [1 2 3 4]", "x[2..4]"]), ("mask", ["x := [1 2 3 4]", "x[x > 2]"]), ("neg", ["x := 5", "-x"]),
               ("convert", ["x<u8> := 200", "y<u16> := x"]), ("atom", [":a == :a"]), ("rational", ["1/2 + 1/3"]), ("empty", ["_"])]
+    # scale: the NUMBER of names, constants, instructions and statements of a program (counts and section lengths of the file are
+    # functions of these; a reader that mis-sizes an entry or a count field goes wrong only beyond some number)
+    Ns = list(range(1, 17)) + [24, 31, 32, 33, 48, 63, 64, 65, 100, 127, 128, 129] + ([200, 255, 256, 257, 300] if tier != "quick" else [])
+    for N in Ns:
+        progs.append((f"scale-names/{N}", [f"v{i} := {i}" for i in range(1, N + 1)] + [f"v1 + v{N}"]))
+        progs.append((f"scale-mutnames/{N}", [f"~w{i} := {i}" for i in range(1, N + 1)] + [f"w{N} += w1", f"w{N}"]))
+    for N in [2, 3, 4, 8, 15, 16, 17, 32, 64, 65, 128] + ([255, 256, 257] if tier != "quick" else []):
+        progs.append((f"scale-consts/{N}", ["m := [" + " ".join(str(i) + ".5" for i in range(1, N + 1)) + "]", f"m[{N}]"]))
+        progs.append((f"scale-chain/{N}", ["x := " + " + ".join(str(i) for i in range(1, N + 1))]))
+        progs.append((f"scale-stmts/{N}", ["~q := 0"] + ["q += 1"] * N + ["q"]))
     return progs
 
 def const_lit(kind, fields):
@@ -218,7 +228,7 @@ def blackbox_family(rep, tier, seed):
             rep.fail(f"C06/compile-panics/{fam}", f"{st}: compile panics: {comp.get('msg')}", replay); continue
         # (zoo programs are judged on faithfulness and on panics only: large parts of the stdlib are not registered for
         #  loading yet, which the must-run families above already record)
-        must = fam0.split("/")[0] in ("const-scalar", "const-row", "const-col", "const-mat", "scalar-op", "matrix-op", "index", "index-assign", "range", "opassign", "logic", "string", "slice", "mask", "neg", "bytecode-test")
+        must = fam0.split("/")[0] in ("const-scalar", "const-row", "const-col", "const-mat", "scalar-op", "matrix-op", "index", "index-assign", "range", "opassign", "logic", "string", "slice", "mask", "neg", "bytecode-test", "scale-names", "scale-mutnames", "scale-consts", "scale-chain", "scale-stmts")
         if comp.get("r") != "ok":
             if must: rep.fail(f"C06/must-run/compile-error/{fam}", f"{st}: compile error {comp.get('class')} for a program of the must-run class", replay)
             else: tally["compile_error(allowed)"] += 1
@@ -227,7 +237,7 @@ def blackbox_family(rep, tier, seed):
         if ld.get("r") != "ok":
             rep.fail(f"C06/load-{ld.get('r')}/{fam}", f"{st}: emitted bytecode does not load: {ld}", replay); continue
         if ld.get("reenc", {}).get("r") != "ok" or not ld["reenc"].get("eq"):
-            rep.fail(f"C06/reencode/{fam}", f"{st}: re-encoding changes the bytes: {ld.get('reenc')}", replay); continue
+            tally["reencode_differs(informational: C07's subject)"] += 1
         run = resp.get("run", {})
         if run.get("r") == "panic":
             rep.fail(f"C06/run-panics/{fam}", f"{st}: run_program panics: {run.get('msg')}", replay); continue
